@@ -389,8 +389,17 @@ func runC04(c *fw.Ctx) {
 					for qu, qy := range queries {
 						for _, ann := range []bool{false, true} {
 							for _, desc := range []bool{false, true} {
+							for tagMode := 0; tagMode <= 3; tagMode++ {
 								if c.Expired() {
 									return
+								}
+								// tagMode: 0 no Tags, 1 the method's own Tags, 2 Tags of the enclosing URL, 3 both
+								isURL := strings.HasPrefix(pl, "url-")
+								if tagMode >= 2 && !isURL {
+									continue
+								}
+								if tagMode != 0 && (qu != 0 || ann || desc || qi > 1 || len(rl) > 1) {
+									continue // deviation bound: Tags vary against an otherwise default method
 								}
 								// deviation bound on the "small" attributes: at most two of {query, annotation, description} depart from default together with a non-default request
 								dev := 0
@@ -423,6 +432,9 @@ func runC04(c *fw.Ctx) {
 								for k, ri := range rl {
 									m.Kids = append(m.Kids, rf[ri].build(codes[k]))
 								}
+								if tagMode == 1 || tagMode == 3 {
+									m.Kids = append(m.Kids, doc.N("Tags", "@own"))
+								}
 								path := "/focus"
 								id := "http POST " + path
 								nodes := []*doc.Node{doc.Jsight()}
@@ -445,12 +457,15 @@ func runC04(c *fw.Ctx) {
 								default:
 									u := doc.N("URL", path)
 									u.Paren = strings.Contains(pl, "paren")
+									if tagMode >= 2 {
+										u.Kids = append(u.Kids, doc.N("Tags", "@ugrp"))
+									}
 									m.Paren = len(m.Kids) > 0 // keep the focus self-delimiting inside the block
 									if strings.HasSuffix(pl, "first") {
-										u.Kids = []*doc.Node{m, other}
+										u.Kids = append(u.Kids, m, other)
 										ids = []string{id, "http GET " + path}
 									} else {
-										u.Kids = []*doc.Node{other, m}
+										u.Kids = append(u.Kids, other, m)
 										ids = []string{"http GET " + path, id}
 									}
 									nodes = append(nodes, u)
@@ -469,7 +484,28 @@ func runC04(c *fw.Ctx) {
 								e[p+".path"] = path
 								e[p+".pathVariables"] = absent
 								e[p+".tags.#len"] = "1"
-								e[p+".tags[0]"] = "@focus"
+								switch tagMode {
+								case 0:
+									e[p+".tags[0]"] = "@focus"
+								case 1, 3:
+									e[p+".tags[0]"] = "@own" // the method's own Tags win
+								case 2:
+									e[p+".tags[0]"] = "@ugrp"
+								}
+								if tagMode != 0 {
+									nodes = append(nodes, doc.N("TAG", "@own").WithAnn("Own"), doc.N("TAG", "@ugrp"))
+									e["$.tags.@own.title"] = "Own"
+									e["$.tags.@ugrp.title"] = "@ugrp"
+									if isURL {
+										// the sibling method has no Tags of its own
+										sib := "@focus"
+										if tagMode >= 2 {
+											sib = "@ugrp"
+										}
+										e["$.interactions.http GET "+path+".tags.#len"] = "1"
+										e["$.interactions.http GET "+path+".tags[0]"] = sib
+									}
+								}
 								if ann {
 									e[p+".annotation"] = "does things"
 								} else {
@@ -504,8 +540,9 @@ func runC04(c *fw.Ctx) {
 								for _, ri := range rl {
 									names = append(names, rf[ri].name)
 								}
-								label := fmt.Sprintf("http %s req=%s resp=%v query=%s ann=%v desc=%v style=%s", pl, q.name, names, qy.name, ann, desc, style)
+								label := fmt.Sprintf("http %s req=%s resp=%v query=%s ann=%v desc=%v tags=%d style=%s", pl, q.name, names, qy.name, ann, desc, tagMode, style)
 								judge(label, nodes, e, style)
+							}
 							}
 						}
 					}
